@@ -64,7 +64,13 @@ NoDupObs(o) == \A g \in DOMAIN o.facts : \A r \in DOMAIN o.facts[g] :
 Graph(s, g) == [f |-> Get(s.facts, g, EmptyMap), r |-> Get(s.rules, g, EmptyMap), s |-> Get(s.schemas, g, EmptyMap)]
 Persistent(s) == [kgs |-> s.kgs, facts |-> s.facts, rules |-> s.rules, schemas |-> s.schemas]
 
-Id(w) == [user |-> w.user, g |-> w.g, acl |-> w.acl]
+\* the caller's graph roles are those the system holds when the request arrives (the
+\* kg_acls relation of the internal graph in `cur`): a user who created a graph in an
+\* earlier request owns it, whatever the scenario's initial ACL list said
+LiveAcl(s, user) ==
+  LET T == { tup \in Rel(s, INTERNAL, "kg_acls") : Len(tup) = 3 /\ tup[2][2] = user } IN
+  [g \in { tup[1][2] : tup \in T } |-> (CHOOSE tup \in T : tup[1][2] = g)[3][2]]
+Id(w) == [user |-> w.user, g |-> w.g, acl |-> LiveAcl(cur, w.user)]
 
 \* graphs whose persistent content the step changed without permission
 Unauthorized(id, s, t) ==
